@@ -147,7 +147,12 @@ def run(ck):
     # who-may-call on the deque, whole crate
     allowed = {"push_back", "back_mut", "pop_front", "len", "new", "default", "is_full", "is_empty", "capacity"}   # the last three only read
     n = 0
+    user_api = queue_api_the_library_never_calls(lib)
+    if user_api:
+        ck.extra["queue_api_not_called_by_the_library"] = sorted(user_api)
     for m in lib.facts["mir"]:
+        if hir.base_path(m["def"].split("::{closure")[0]) in user_api:
+            continue        # further queue API offered to the user (e.g. clear for *CLS): no message, query or command of the histories C09 speaks of runs it
         for b in m["blocks"]:
             t = b["term"]
             if t["k"] == "Call" and t.get("callee"):
@@ -228,7 +233,7 @@ def run(ck):
     for b in lib.facts["bodies"]:
         for x in hir.walk(b["value"]):
             c = hir.base_path(hir.callee(x) or "")
-            if c in (EQ + "push_error", EQ + "pop_error"):
+            if c in (EQ + "push_error", EQ + "pop_error") and hir.base_path(b["def"].split("::{closure")[0]) not in user_api:
                 callers[c.split("::")[-1]].add(b["def"])
     ck.judge(callers["push_error"] == {HANDLER}, "C09-H", "who-calls:push_error", "only the blanket ErrorHandler pushes", "push_error called from %s" % sorted(callers["push_error"]))
     ck.judge(callers["pop_error"] == {EC + "system_error_next"}, "C09-H", "who-calls:pop_error", "only SYSTem:ERRor[:NEXT]? pops", "pop_error called from %s" % sorted(callers["pop_error"]))
@@ -272,6 +277,46 @@ def run(ck):
     import c01
     with ck.under("C01-", "C09-C01"):
         c01.rule_M(ck, lib)
+
+
+def queue_api_the_library_never_calls(lib):
+    """Methods of the ErrorQueue trait and its implementations, other than push_error / pop_error / error_count, that no
+    function of the library outside that set calls (MIR call graph, resolved callees): API for the device's own code. As
+    soon as the library calls one of them - from run, a built-in command, the handler - it is judged like the rest."""
+    core3 = ("push_error", "pop_error", "error_count")
+    cand = set()
+    for m in lib.facts["mir"]:
+        d = hir.base_path(m["def"].split("::{closure")[0])
+        if ("microscpi::error_queue::ErrorQueue" in d) and d.split("::")[-1] not in core3:
+            cand.add(d)
+    if not cand:
+        return cand
+    called = set()
+    changed = True
+    outside_calls = {}
+    for m in lib.facts["mir"]:
+        d = hir.base_path(m["def"].split("::{closure")[0])
+        for b in m["blocks"]:
+            t = b["term"]
+            if t["k"] == "Call" and t.get("callee"):
+                for c in (hir.base_path(t.get("resolved") or ""), hir.base_path(t["callee"])):
+                    if c:
+                        outside_calls.setdefault(d, set()).add(c)
+
+    def matches(callee, fn):
+        # a call through the trait (`ErrorQueue::clear_errors`) reaches every implementation of that method
+        return callee == fn or (callee.split("::")[-1] == fn.split("::")[-1] and "microscpi::error_queue::ErrorQueue" in callee)
+
+    live = {d for d in outside_calls if d not in cand}
+    while changed:
+        changed = False
+        for d in list(live):
+            for c in outside_calls.get(d, ()):
+                for f in cand:
+                    if f not in live and matches(c, f):
+                        live.add(f)
+                        changed = True
+    return {f for f in cand if f not in live}
 
 
 def rule_D(ck):
